@@ -23,6 +23,13 @@ def install_clock(module, clock):
         def utcnow(cls):
             return clock.t
 
+    # re-installation (a second adapter in the same worker process) must rebind to the NEW clock: restore what the module originally imported first
+    for name in ("datetime", "time"):
+        orig = "_verif_orig_" + name
+        if hasattr(module, orig):
+            setattr(module, name, getattr(module, orig))
+        elif hasattr(module, name):
+            setattr(module, orig, getattr(module, name))
     if getattr(module, "datetime", None) is not None:
         if isinstance(module.datetime, types.ModuleType):
             shim = types.SimpleNamespace(**{k: getattr(_dt, k) for k in dir(_dt) if not k.startswith("__")})
